@@ -360,6 +360,14 @@ func (cr *concRun) runOp(g int, op concOp) (res string) {
 		if err != nil {
 			return "err:" + err.Error()
 		}
+		// the result belongs to this goroutine: it may rename its record and fields (as a caller deriving a
+		// variant schema would) without anybody else noticing
+		if v%5 == 0 && sch.Object != nil {
+			sch.Object.Name = fmt.Sprintf("renamed_by_g%d", g)
+			for i := range sch.Object.Fields {
+				sch.Object.Fields[i].Name += "_x"
+			}
+		}
 		return string(b)
 	case 2: // register builder and schema for this goroutine's private type, then build and use a codec that needs them
 		pt, ot := s.privTyp[g%maxPriv], s.outerTyp[g%maxPriv]
